@@ -5,7 +5,6 @@ NOT_APPLICABLE = {
     "C17": "equality of a computed Merkle root with an independent commitment is value-level; a self-consistent change of hashing leaves every structural rule intact",
     "C18": "reachability of stored tree nodes from the current root over all histories is a property of runtime data, not of code shape",
     "C23": "soundness relates the comparison verdict to validity of all payloads under two schemas; semantic, no structural necessary condition",
-    "C26": "truncation of roots/powers is numerical; value-level",
     "C27": "parse/print inverse is a round-trip equality over all strings/values; value-level",
     "C38": "soundness of analyser output against all executions on all ledger states is semantic",
     "C42": "proportionality and per-epoch emission bounds are arithmetic over histories; the stake-sorted index is value-level",
@@ -269,3 +268,9 @@ claim("C24", "audited panic surface restricted to the named checked operations a
       "contain no panic-capable construct (abs() is discharged by the `!= MIN` guard); every panic-capable construct in the conversions is in an "
       "audited table with its range argument. Exactness, truncation toward zero and 'fails exactly when unrepresentable' are numerical and not decided.",
       level="other")
+
+claim("C26", "audited panic surface of the power/root functions + dominance of the zero-degree / negative-radicand guards",
+      "Decides the 'fail rather than panic' clause only: every panic-capable construct of checked_powi / checked_sqrt / checked_cbrt / "
+      "checked_nth_root (both decimal types), including big-integer operator arithmetic, matches an audited entry with its range argument; the "
+      "`n - 1` subtraction and nth_root(n) are unreachable from the n == 0 arm and an is_negative() test exists. Exact truncation of the results "
+      "is numerical and not decided.", level="other")
